@@ -103,7 +103,10 @@ func (a *btcAdapter) CreateOpeningTransaction(p *swap.OpeningParams) (string, st
 		return "", "", "", 0, 0, err
 	}
 	pk, _ := txscript.PayToAddrScript(dec)
-	if p.Amount > b.n.Cfg.BtcBalance {
+	b.n.w.mu.Lock()
+	bal := b.n.Cfg.BtcBalance
+	b.n.w.mu.Unlock()
+	if p.Amount > bal {
 		return "", "", "", 0, 0, errors.New("Could not afford: insufficient funds")
 	}
 	inputs, swapIdx, changeOuts := 1, 0, 1
